@@ -1,13 +1,16 @@
 import Bardolph.Driver.TimePattern
+import Bardolph.Driver.Vm
 /-! All driver handlers; `dispatch` routes one request line. -/
 namespace Bardolph.Driver
 
+def handlers : List (String → List String → Option String) := [
+  TP.handle,
+  VmD.handle
+]
+
 def dispatch (line : String) : String :=
   match line.splitOn "\t" with
-  | cmd :: args =>
-    match TP.handle cmd args with
-    | some r => r
-    | none => "bad-cmd"
+  | cmd :: args => (handlers.findSome? fun h => h cmd args).getD "bad-cmd"
   | [] => "bad-cmd"
 
 end Bardolph.Driver
